@@ -65,11 +65,18 @@ GRIDS = {
     "U64": {"cls": "UnitGrid", "shape": [6, 4], "periodic": [False, False]},
     "P6": {"cls": "PolarSymGrid", "radius": 2.0, "shape": 6},
     "S6": {"cls": "SphericalSymGrid", "radius": 2.0, "shape": 6},  # same bounds and shape as P6
+    # twins whose parameters differ only by numbers with equal Python hashes (hash(-1) == hash(-2))
+    "Cm1": {"cls": "CartesianGrid", "bounds": [[-1.0, 5.0]], "shape": [6], "periodic": [False]},
+    "Cm2": {"cls": "CartesianGrid", "bounds": [[-2.0, 5.0]], "shape": [6], "periodic": [False]},
+    "C2m1": {"cls": "CartesianGrid", "bounds": [[0.0, 3.0], [-1.0, 1.0]], "shape": [3, 4], "periodic": [False, True]},
+    "C2m2": {"cls": "CartesianGrid", "bounds": [[0.0, 3.0], [-2.0, 1.0]], "shape": [3, 4], "periodic": [False, True]},
 }
 BCS = {
     "value0": {"value": 0}, "derivative0": {"derivative": 0}, "curvature0": {"curvature": 0}, "mixed0": {"mixed": 0},
     "value1": {"value": 1}, "derivative1": {"derivative": 1}, "mixed1": {"type": "mixed", "value": 1, "const": 0},
     "mixed1c": {"type": "mixed", "value": 1, "const": 1},
+    "valuem1": {"value": -1}, "valuem2": {"value": -2}, "derivativem1": {"derivative": -1.0}, "derivativem2": {"derivative": -2.0},
+    "mixed1cm1": {"type": "mixed", "value": 1, "const": -1}, "mixed1cm2": {"type": "mixed", "value": 1, "const": -2},
     "lowV_highD": None, "lowD_highV": None,  # filled per grid (sides)
     "value_t": {"value_expression": "t"}, "derivative_t": {"derivative_expression": "t"},
     "periodic": "periodic", "antiperiodic": "anti-periodic", "auto_neumann": "auto_periodic_neumann", "auto_dirichlet": "auto_periodic_dirichlet",
@@ -93,8 +100,9 @@ def bc_spec(name, grid):
 
 def build_pool(rng, size):
     pool = []
-    nonper = ["U6", "U6b", "C6", "C6w", "U64", "P6", "S6"]
-    local = ["value0", "derivative0", "curvature0", "mixed0", "value1", "derivative1", "mixed1", "mixed1c", "lowV_highD", "lowD_highV", "value_t", "derivative_t", "auto_neumann", "auto_dirichlet"]
+    nonper = ["U6", "U6b", "C6", "C6w", "U64", "P6", "S6", "Cm1", "Cm2", "C2m1", "C2m2"]
+    local = ["value0", "derivative0", "curvature0", "mixed0", "value1", "derivative1", "mixed1", "mixed1c", "lowV_highD", "lowD_highV", "value_t", "derivative_t", "auto_neumann", "auto_dirichlet",
+             "valuem1", "valuem2", "derivativem1", "derivativem2", "mixed1cm1", "mixed1cm2"]
     ops = [("laplace", {}), ("gradient", {}), ("gradient", {"method": "forward"}), ("gradient_squared", {}), ("gradient_squared", {"central": False})]
 
     def add(req):
@@ -105,6 +113,15 @@ def build_pool(rng, size):
     for g in ["U6", "U6b", "C6", "P6", "S6"]:
         for bc in local[:6] + ["lowV_highD", "lowD_highV"]:
             add({"kind": "make_operator", "grid": g, "op": "laplace", "kwargs": {}, "bc": bc, "dtype": "float64", "seed": 1})
+    # twins with colliding number hashes: grids, boundary values, fill values
+    for g in ["Cm1", "Cm2"]:
+        for bc in ["valuem1", "valuem2", "derivativem1", "derivativem2", "mixed1cm1", "mixed1cm2"]:
+            add({"kind": "make_operator", "grid": g, "op": "laplace", "kwargs": {}, "bc": bc, "dtype": "float64", "seed": 1})
+        for fill in (-1.0, -2.0):
+            add({"kind": "interpolate", "grid": g, "bc": "none", "fill": fill, "seed": 1, "frac": 0.3})
+    for g in ["C2m1", "C2m2"]:
+        add({"kind": "make_operator", "grid": g, "op": "laplace", "kwargs": {}, "bc": "auto_neumann", "dtype": "float64", "seed": 1})
+        add({"kind": "rate", "eq": "diffusion", "grid": g, "bc": "auto_neumann", "bc2": "value0", "backend": "numba", "shared": True, "seed": 0})
     for _ in range(size):
         g = str(rng.choice(nonper))
         op, kw = ops[int(rng.integers(len(ops)))]
@@ -117,7 +134,7 @@ def build_pool(rng, size):
         elif kind == "no_bc":
             add({"kind": kind, "grid": g, "op": op, "kwargs": kw, "seed": int(rng.integers(3))})
         elif kind == "interpolate":
-            add({"kind": kind, "grid": g, "bc": str(rng.choice(["none", "value0", "derivative0", "value1"])), "fill": [None, 0.5][int(rng.integers(2))], "seed": int(rng.integers(3)), "frac": float(np.round(rng.uniform(0.1, 0.9), 2))})
+            add({"kind": kind, "grid": g, "bc": str(rng.choice(["none", "value0", "derivative0", "value1"])), "fill": [None, 0.5, -1.0, -2.0][int(rng.integers(4))], "seed": int(rng.integers(3)), "frac": float(np.round(rng.uniform(0.1, 0.9), 2))})
         elif kind == "expression":
             add({"kind": kind, "text": str(rng.choice(["x**2 + y", "x**2 - y", "sin(x)*y", "sin(y)*x", "heaviside(x - y)", "heaviside(y - x)"])), "backend": str(rng.choice(["numpy", "numba"])), "single_arg": bool(rng.random() < 0.3)})
         elif kind == "rate":
@@ -203,10 +220,15 @@ def execute(req, ctx: Context):
         grid.make_operator_no_bc(req["op"], backend="numba", **req["kwargs"])(f._data_full, out)
         return out
     if kind == "interpolate":
-        f = make_field(grid, req["seed"])
+        # one field object per (grid, seed) and history: per-object caches see every fill/bc variant
+        fkey = ("field", req["grid"], req["seed"])
+        f = ctx.eqs.get(fkey)
+        if f is None:
+            f = ctx.eqs[fkey] = make_field(grid, req["seed"])
         lo = np.array([b[0] for b in grid.axes_bounds])
         hi = np.array([b[1] for b in grid.axes_bounds])
-        pts = np.array([lo + (hi - lo) * fr for fr in (req["frac"], 0.5 * req["frac"], 0.97)])
+        fracs = (req["frac"], 0.5 * req["frac"], 0.97) + ((1.6,) if req["fill"] is not None and not any(grid.periodic) else ())
+        pts = np.array([lo + (hi - lo) * fr for fr in fracs])  # with a fill value: one point outside
         bc = None if req["bc"] == "none" else bc_spec(req["bc"], grid)
         return np.asarray(f.interpolate(pts, bc=bc, fill=req["fill"]))
     if kind == "expression":
